@@ -57,8 +57,9 @@ __CPROVER_ensures(!obj_alive[o] && ghost_live == __CPROVER_old(ghost_live) - 1)
   __CPROVER_ensures(__CPROVER_forall { int l2; (0 <= l2 && l2 < __CPROVER_old(ghost_next_obj)) ==> (obj_alive[l2] == __CPROVER_old(obj_alive)[l2] && obj_class[l2] == __CPROVER_old(obj_class)[l2]) })
 
 /* ---- select_mms: known handle -> selected, nothing else changes; unknown -> fatal, nothing changes ---- */
+#define REQ_reg__select_mms(my_name) (REG_WF && KEY_OK(my_name) && ghost_exit == 0)
 #define CONTRACT_reg__select_mms \
-  __CPROVER_requires(REG_WF && KEY_OK(my_name) && ghost_exit == 0) \
+  __CPROVER_requires(REQ_reg__select_mms(my_name)) \
   __CPROVER_assigns(ghost_msg) \
   __CPROVER_assigns(_master_map_present[my_name]: _master_pointer) \
   __CPROVER_assigns(!_master_map_present[my_name]: ghost_exit) \
@@ -79,10 +80,12 @@ vkey ghost_norm;   /* == masa_map(masa_name), named once so that quantified clau
 #define MATCHES(c) (class_name[c] == ghost_norm)
 int ghost_e;         /* arbitrary catalogue index (ghost constant): "some entry matches" is stated for it */
 _Bool ghost_nomatch; /* ghost hypothesis flag: when set, the caller asserts that no catalogue entry matches */
+#define REQ_reg__init_mms(my_name, masa_name) \
+  (REG_WF && CLASSES_OK && KEY_OK(my_name) && KEY_OK(masa_name) && ghost_exit == 0 && ghost_norm == MASA_MAP(masa_name) && \
+   ghost_next_obj < OMAX - 256 && _master_map_size < KMAX - 4 && \
+   (ghost_nomatch ==> (__CPROVER_forall { int e0; (0 <= e0 && e0 < NCAT) ==> !MATCHES(CAT[e0]) })))
 #define CONTRACT_reg__init_mms \
-  __CPROVER_requires(REG_WF && CLASSES_OK && KEY_OK(my_name) && KEY_OK(masa_name) && ghost_exit == 0 && ghost_norm == MASA_MAP(masa_name) && \
-                     ghost_next_obj < OMAX - 256 && _master_map_size < KMAX - 4) \
-  __CPROVER_requires(ghost_nomatch ==> (__CPROVER_forall { int e0; (0 <= e0 && e0 < NCAT) ==> !MATCHES(CAT[e0]) })) \
+  __CPROVER_requires(REQ_reg__init_mms(my_name, masa_name)) \
   __CPROVER_assigns(ghost_msg, ghost_exit, _master_pointer, anim_n, __CPROVER_object_whole(anim_p), ghost_next_obj, ghost_live, \
                     __CPROVER_object_whole(obj_alive), __CPROVER_object_whole(obj_class), _master_map_present[my_name], _master_map_val[my_name], _master_map_size) \
   /* some entry matches: a fresh object of a matching class is registered under the handle and selected */ \
@@ -101,7 +104,8 @@ _Bool ghost_nomatch; /* ghost hypothesis flag: when set, the caller asserts that
   __CPROVER_assigns(i, selected, ghost_live, ghost_msg, ghost_exit, CAND_SLICE) \
   __CPROVER_loop_invariant(0 <= i && i <= anim_n && anim_n == NCAT && ghost_exit == 0) \
   __CPROVER_loop_invariant(ghost_live == __CPROVER_loop_entry(ghost_live) - i + (selected != 0 ? 1 : 0)) \
-  __CPROVER_loop_invariant(selected == 0 || (anim_p[0] <= selected && selected < anim_p[0] + i && obj_alive[selected] && MATCHES(obj_class[selected]))) \
+  __CPROVER_loop_invariant(selected == 0 || (anim_p[0] <= selected && selected < anim_p[0] + i && obj_alive[selected] && \
+                                             0 <= obj_class[selected] && obj_class[selected] < NCAT_MAX && MATCHES(obj_class[selected]))) \
   __CPROVER_loop_invariant(__CPROVER_forall { int i1; (0 <= i1 && i1 < i && anim_p[i1] != selected) ==> !obj_alive[anim_p[i1]] }) \
   __CPROVER_loop_invariant(ghost_nomatch ==> selected == 0) \
   __CPROVER_loop_invariant(selected == 0 ==> (__CPROVER_forall { int i4; (0 <= i4 && i4 < i) ==> !MATCHES(obj_class[anim_p[i4]]) })) \
@@ -135,3 +139,27 @@ _Bool ghost_nomatch; /* ghost hypothesis flag: when set, the caller asserts that
   __CPROVER_loop_invariant(__CPROVER_forall { int t2; (0 <= t2 && t2 < KMAX && t2 < iter && _master_map_present[t2]) ==> !obj_alive[_master_map_val[t2]] }) \
   __CPROVER_loop_invariant(__CPROVER_loop_entry(ghost_live) - iter <= ghost_live && ghost_live <= __CPROVER_loop_entry(ghost_live)) \
   __CPROVER_decreases(VEND - iter)
+
+/* ---- non-vacuity witnesses: the preconditions hold in concrete registry states (the solvers cannot always find a model of the
+ *      quantified invariant within the canary budget).  State 1: empty registry.  State 2: one handle owning one live object. ---- */
+static void reg_witness_state(int n_handles, vkey h0)
+{
+  __CPROVER_assume(__CPROVER_forall { int w1; (0 <= w1 && w1 < KMAX) ==> (_master_map_present[w1] == (n_handles == 1 && w1 == h0)) });
+  __CPROVER_assume(__CPROVER_forall { int w2; (0 <= w2 && w2 < NCAT_MAX) ==> class_name[w2] == w2 + 1 });
+  __CPROVER_assume(_master_map_size == n_handles && ghost_live == n_handles && ghost_next_obj == 1 + n_handles && ghost_exit == 0);
+  __CPROVER_assume(n_handles == 0 ? _master_pointer == 0 : (_master_pointer == 1 && _master_map_val[h0] == 1 && obj_alive[1] && obj_class[1] == 3));
+}
+void reg_witness(void)
+{
+  int n; vkey h0, h, nm;
+  __CPROVER_assume((n == 0 || n == 1) && KEY_OK(h0) && KEY_OK(h) && KEY_OK(nm) && ghost_norm == MASA_MAP(nm) && !ghost_nomatch);
+  reg_witness_state(n, h0);
+  __CPROVER_assert(REG_WF_A, "witness: REG_WF_A");
+  __CPROVER_assert(REG_WF_B, "witness: REG_WF_B");
+  __CPROVER_assert(REG_WF_C, "witness: REG_WF_C");
+  __CPROVER_assert(REG_WF_D, "witness: REG_WF_D");
+  __CPROVER_assert(CLASSES_OK, "witness: CLASSES_OK");
+  __CPROVER_assert(REQ_reg__init_mms(h, nm), "witness: precondition of init_mms");
+  __CPROVER_assert(REQ_reg__select_mms(h), "witness: precondition of select_mms");
+  __CPROVER_assert(0, "canary");
+}
